@@ -210,7 +210,8 @@ def build_runner(pid):
         if rc != 0 or not os.path.exists(gen):
             return None, "extraction failed:\n" + out[-2000:]
     srcs = [gen, gen + "i", os.path.join(OCAML, "zio_body.ml"), os.path.join(OCAML, "%s_driver.ml" % low)]
-    hsh = file_hash(srcs)
+    incs = [os.path.join(OCAML, i) for i in re.findall(r"\(\*INCLUDE ([A-Za-z0-9_.]+)\*\)", open(srcs[3]).read())]
+    hsh = file_hash(srcs + incs)
     bdir = os.path.join(CACHE, "ocaml", low)
     exe = os.path.join(bdir, "runner")
     stamp = os.path.join(bdir, "stamp")
@@ -225,7 +226,11 @@ def build_runner(pid):
         f.write("module ZA = Z\nopen %s\n" % (mod[0].upper() + mod[1:]))
         f.write(open(srcs[2]).read())
         f.write("\n")
-        f.write(open(srcs[3]).read())
+        drv = open(srcs[3]).read()
+        # textual includes: a line (*INCLUDE file.ml*) is replaced by ocaml/file.ml
+        for inc in re.findall(r"\(\*INCLUDE ([A-Za-z0-9_.]+)\*\)", drv):
+            drv = drv.replace("(*INCLUDE %s*)" % inc, open(os.path.join(OCAML, inc)).read())
+        f.write(drv)
     rc, out, _ = sh(["ocamlfind", "ocamlopt", "-w", "-a", "-package", "zarith", "-linkpkg",
                      mod + ".mli", mod + ".ml", "main.ml", "-o", "runner"],
                     cwd=bdir, timeout=900)
